@@ -15,7 +15,7 @@ from harness import vlib
 from harness import c19lib as L
 
 THEOREMS = ["C19_trace_partial", "C19_trace_refuted", "C19_codec_union_refuted", "C19_mixin_once", "C19_context",
-            "C19_union_context_refuted", "C19_de_trace_partial"]
+            "C19_union_context_refuted", "C19_de_trace_partial", "C19_de_post_once"]
 
 # ---------------------------------------------------------------------------
 # generators
@@ -195,7 +195,12 @@ def reaches_recursive(schema, t, seen=None):
     """some class reachable from t has a field whose type mentions the class itself (codecs cannot be built for those:
     BasicEncoder(Node) with `kids: List["Node"]` raises AttributeError at construction - not a C19 matter)"""
     seen = set() if seen is None else seen
+    todo = []
     for c in L.ty_classes(t):
+        todo.append(c)
+        if schema["classes"][c].get("disc"):
+            todo += L.descendants(schema, c)      # the dispatcher builds the variants' functions too
+    for c in todo:
         if c in seen:
             continue
         seen.add(c)
